@@ -1,5 +1,6 @@
 mod golden;
 mod idcorr;
+mod search;
 mod tables;
 mod util;
 
@@ -110,6 +111,19 @@ fn main() {
             } else {
                 eprintln!("no correspondence generator for {}", prop);
                 std::process::exit(2);
+            }
+        }
+        "search" => {
+            let prop = &args[2];
+            let thorough = args[3] == "thorough";
+            let seed: u64 = args[4].parse().unwrap_or(0);
+            let mut rng = util::Rng::new(seed ^ 0x5EA7C4);
+            match search::run(prop, &mut rng, thorough) {
+                Some(r) => println!("{}", r.to_json()),
+                None => {
+                    eprintln!("no search for {}", prop);
+                    std::process::exit(2);
+                }
             }
         }
         other => {
